@@ -44,6 +44,7 @@ type Frame struct {
 	entryArgs []Value
 	entrySt   *State // state at function entry (for old())
 	top       bool
+	from      *ssa.BasicBlock // predecessor block (for Phi)
 	ct        *Contract
 	site      string // attribution for obligations raised inside inlined callees
 }
@@ -191,6 +192,22 @@ func (u *Unit) where(fr *Frame, in ssa.Instruction) string {
 	}
 	if t := u.srcText(in.Parent(), in.Pos()); t != "" {
 		return t
+	}
+	// no source expression (e.g. i++ in a for clause): kind + ordinal among the function's instructions of that kind
+	n := 0
+	for _, b := range in.Parent().Blocks {
+		for _, x := range b.Instrs {
+			if fmt.Sprintf("%T", x) == fmt.Sprintf("%T", in) {
+				n++
+			}
+			if x == in {
+				op := ""
+				if bo, ok := in.(*ssa.BinOp); ok {
+					op = bo.Op.String()
+				}
+				return fmt.Sprintf("%s%s#%d", strings.TrimPrefix(fmt.Sprintf("%T", in), "*ssa."), op, n)
+			}
+		}
 	}
 	return strings.TrimSpace(in.String())
 }
@@ -948,6 +965,19 @@ func (u *Unit) run(st *State, fr *Frame, b *ssa.BasicBlock, idx int) []Outcome {
 	for i := idx; i < len(b.Instrs); i++ {
 		switch in := b.Instrs[i].(type) {
 		case *ssa.DebugRef, *ssa.RunDefers:
+		case *ssa.Phi:
+			found := false
+			for pi, p := range b.Preds {
+				if p == fr.from {
+					fr.regs[in] = u.val(st, fr, in.Edges[pi])
+					found = true
+					break
+				}
+			}
+			if !found {
+				u.unsupported("phi without known predecessor")
+				return nil
+			}
 		case *ssa.Alloc:
 			t := in.Type().(*types.Pointer).Elem()
 			o := u.newObject(st, u.zero(st, t), in.Comment)
@@ -1038,6 +1068,9 @@ func (u *Unit) run(st *State, fr *Frame, b *ssa.BasicBlock, idx int) []Outcome {
 					return nil
 				}
 				et := in.X.Type().Underlying().(*types.Slice).Elem()
+				if u.specMode == 0 && it.C == nil && len(st.inst) < 48 {
+					st.addInst(it) // index terms of the program are instantiation candidates for quantified hypotheses
+				}
 				fr.regs[in] = ElemPtr{R: s.R, Idx: IntAdd(s.Off, it), Typ: et}
 			case PtrV: // pointer to array
 				av, ok := getPath(st.objs[s.Obj], s.Path).(ArrayV)
@@ -1196,6 +1229,7 @@ func (u *Unit) run(st *State, fr *Frame, b *ssa.BasicBlock, idx int) []Outcome {
 						return
 					}
 				}
+				f.from = b
 				res = append(res, u.enter(s, f, succ)...)
 			}
 			if c.C != nil {
@@ -1211,6 +1245,7 @@ func (u *Unit) run(st *State, fr *Frame, b *ssa.BasicBlock, idx int) []Outcome {
 			try(Not(c), b.Succs[1], st2, fr2)
 			return res
 		case *ssa.Jump:
+			fr.from = b
 			return u.enter(st, fr, b.Succs[0])
 		case *ssa.Return:
 			var ret Value
